@@ -23,6 +23,7 @@ DEV2FID = {
     "OpaqueSplice": "D_C13_OpaqueSplice",
     "RemoveValSkipsContainers": "D_C13_RemoveValSkipsContainers",
     "AppendMarkerNoop": "D_C13_AppendMarkerNoop",
+    "NonMapSeedAccepted": "D_C13_NonMapSeedAccepted",      # swamp level (spec/PatchSwamp.tla)
 }
 # the invariant each deviation must break at model level, and a selection of cases where it does
 DEV_WITNESS = {
@@ -37,12 +38,12 @@ INVS = ("InvAgreesWithApply InvSuccessWellFormed InvFailureLeavesBody InvNaNUnor
 
 # per tier: generation (shards, per-mille rate per family), model checking (shards, rates), gateway level (families)
 PLAN = {
-    "quick": dict(gen=(2, {"F0": 1000, "F1": 200, "F2": 1000, "F3": 300, "F4": 200, "F5": 500, "F6": 10}),
-                  mc=(1, {"F0": 1000, "F1": 50, "F2": 300, "F3": 100, "F4": 50, "F5": 200, "F6": 2}),
-                  rig_rates={"F0": 1000, "F2": 1000, "F5": 1000, "F1": 60, "F6": 2}),
-    "thorough": dict(gen=(8, {"F0": 1000, "F1": 1000, "F2": 1000, "F3": 1000, "F4": 1000, "F5": 1000, "F6": 500}),
-                     mc=(4, {"F0": 1000, "F1": 1000, "F2": 1000, "F3": 1000, "F4": 1000, "F5": 1000, "F6": 60}),
-                     rig_rates={"F0": 1000, "F1": 1000, "F2": 1000, "F3": 1000, "F4": 1000, "F5": 1000, "F6": 30}),
+    "quick": dict(gen=(2, {"F0": 1000, "F1": 200, "F2": 1000, "F3": 300, "F4": 200, "F5": 500, "F6": 10, "F7": 150}),
+                  mc=(1, {"F0": 1000, "F1": 50, "F2": 300, "F3": 100, "F4": 50, "F5": 200, "F6": 2, "F7": 30}),
+                  rig_rates={"F0": 1000, "F2": 1000, "F5": 1000, "F1": 60, "F6": 2, "F7": 50}, swamp_rate=120),
+    "thorough": dict(gen=(8, {"F0": 1000, "F1": 1000, "F2": 1000, "F3": 1000, "F4": 1000, "F5": 1000, "F6": 500, "F7": 1000}),
+                     mc=(4, {"F0": 1000, "F1": 1000, "F2": 1000, "F3": 1000, "F4": 1000, "F5": 1000, "F6": 60, "F7": 1000}),
+                     rig_rates={"F0": 1000, "F1": 1000, "F2": 1000, "F3": 1000, "F4": 1000, "F5": 1000, "F6": 30, "F7": 300}, swamp_rate=1000),
 }
 
 
@@ -73,6 +74,20 @@ def run_gen(ctx, name, rates, shard, nshards, one=None):
     return os.path.join(ctx.work, "tlc-%s.out" % name), by_fam
 
 
+def run_gen_swamp(ctx, rate, props, one=None):
+    """Swamp-level family S1 (spec/PatchSwamp.tla); with props TLC also evaluates the swamp-level properties over
+    the whole case space (strict: hold; deviation NonMapSeedAccepted: violated)."""
+    env = gen_env(ctx, {"S1": rate}, 0, 1, one)
+    if props:
+        env["GEN_SWAMP_PROPS"] = "1"
+    r = ctx.tlc("Gen_PatchSwamp", cfg="Gen_Patch", workers=1, env=env, name="gen-swamp", count_states=False, timeout=5400, heap="3g")
+    if not r.ok:
+        raise vlib.Inconclusive("swamp-level generation / properties failed: %s %s" % (r.violated, (r.error or "")[:1500]))
+    n = sum(1 for l in r.printed if l.startswith('{"f":"S1"'))
+    r.printed = []
+    return os.path.join(ctx.work, "tlc-gen-swamp.out"), n
+
+
 def best_explanation(matched, deviations):
     """Among the outcomes the real code matched, the one needing the fewest deviations."""
     best = None
@@ -96,7 +111,7 @@ def classify(ctx, results_path, level, stats):
         ident = dict(kind="case", level=d["level"], fam=d["f"], b=d["b"], i=d["i"], j=d["j"], style=d["style"],
                      body_hex=d["body_hex"], ops=d["ops_concrete"], cond=d.get("cond_concrete", ""),
                      observed=dict(cls=d["class"], out=d["out"], err=d.get("err", ""), note=d.get("note", "")),
-                     spec_outcomes=[dict(switches=o["s"], st=o["st"], e=o["e"]) for o in c["out"]])
+                     spec_outcomes=d.get("expected") or [dict(switches=o["s"], st=o["st"], e=o["e"]) for o in c["out"]])
         devs = best_explanation(d["matched"], DEV2FID) if d["matched"] else None
         what_case = "%s body=%s ops=%s%s -> %s %s" % (
             d["level"], d["body_hex"], "; ".join(d["ops_concrete"]), (" if " + d["cond_concrete"]) if d.get("cond_concrete") else "",
@@ -105,6 +120,8 @@ def classify(ctx, results_path, level, stats):
             strict_sts = set(o["st"] for o in c["out"] if not any(x in DEV2FID for x in o["s"]))
             obs_st = d["class"] if d["class"] in ("ok", "cnm") else "fail"
             strong = obs_st not in strict_sts          # e.g. documented: success, observed: failure (not just another error class)
+            if d["level"] == "swamp":
+                strong = d["class"] in ("CREATED", "PATCHED")
             for dev in devs:
                 stats["dev_cases"][dev] = stats["dev_cases"].get(dev, 0) + 1
                 fid = DEV2FID[dev]
@@ -121,7 +138,7 @@ def classify(ctx, results_path, level, stats):
             n_unexpl += 1
             stats["unexplained"] += 1
             if stats["unexplained"] <= 12:
-                spec = "; ".join("%s%s%s" % (o["st"], o["e"] or "", (" under " + ",".join(o["s"])) if o["s"] else "") for o in c["out"])
+                spec = "; ".join(d.get("expected") or [])
                 ctx.deviation(None, "no outcome of the specification matches the real code: %s %s; specification: %s" % (
                     what_case, d.get("note", ""), spec), ident)
     if summary is None:
@@ -147,11 +164,15 @@ def run(ctx):
         rp = json.load(open(ctx.replay))["replay"]
         if rp.get("kind") != "case":
             raise vlib.Inconclusive("replay file is not a C13 case")
-        path, by_fam = run_gen(ctx, "gen-replay", {}, 0, 1, one=(rp["fam"], rp["b"], rp["i"], rp["j"]))
-        if sum(by_fam.values()) != 1:
-            raise vlib.Inconclusive("replay: generator produced %s cases for %s" % (by_fam, rp))
+        if rp.get("level") == "swamp":
+            path, n = run_gen_swamp(ctx, 0, False, one=("S1", 1, rp["i"], 1))
+        else:
+            path, by_fam = run_gen(ctx, "gen-replay", {}, 0, 1, one=(rp["fam"], rp["b"], rp["i"], rp["j"]))
+            n = sum(by_fam.values())
+        if n != 1:
+            raise vlib.Inconclusive("replay: generator produced %d cases for %s" % (n, rp))
         res = os.path.join(ctx.work, "replay.ndjson")
-        ctx.run_driver(binary, ["rig" if rp.get("level") == "rig" else "run", res, path], timeout=600)
+        ctx.run_driver(binary, [{"rig": "rig", "swamp": "swamp"}.get(rp.get("level"), "run"), res, path], timeout=600)
         s = classify(ctx, res, rp.get("level", "func"), stats)
         ctx.cov["evaluations"] += s["evaluations"]
         ctx.cov["traces_validated_against_impl"] += s["evaluations"]
@@ -178,6 +199,7 @@ def run(ctx):
                     pool.submit(ctx.tlc, "MC_Patch", cfg_text=mc_cfg(list(DEV_WITNESS)), env=gen_env(ctx, {"F0": 1000}),
                                 name="mc-asbuilt-all", deadlock=False, timeout=5400, workers=1, count_states=False)))
     # ---- 2. generation (TLC evaluates the oracle)
+    swamp_gen = pool.submit(run_gen_swamp, ctx, plan["swamp_rate"], thorough)
     gens = []
     gen_shards, gen_rates = plan["gen"]
     for sh in range(gen_shards):
@@ -230,6 +252,21 @@ def run(ctx):
     for smp in s2["samples"][:2]:
         ctx.sample(smp)
     ctx.extra["gateway_level"] = {k: s2[k] for k in ("cases", "evaluations", "strict", "unmatched", "by_family", "by_class", "reports")}
+    # ---- 4b. swamp level: key state x CreateIfNotExist x seed x ops x condition x metadata (spec/PatchSwamp.tla)
+    spath, sn = swamp_gen.result()
+    res = os.path.join(ctx.work, "swamp.ndjson")
+    ctx.run_driver(binary, ["swamp", res, spath], timeout=5400)
+    s3 = classify(ctx, res, "swamp", stats)
+    if s3["cases"] != sn:
+        raise vlib.Inconclusive("swamp driver saw %d cases, TLC generated %d" % (s3["cases"], sn))
+    ctx.cov["evaluations"] += s3["evaluations"]
+    ctx.cov["traces_validated_against_impl"] += s3["evaluations"]
+    for smp in s3["samples"][:1]:
+        ctx.sample(smp)
+    ctx.extra["swamp_level"] = {k: s3[k] for k in ("cases", "strict", "unmatched", "by_class", "reports")}
+    if thorough:
+        ctx.extra["swamp_properties"] = "FailureLeavesKey and StoredIsMap hold on all cases of the strict spec; NonMapSeedAccepted violates StoredIsMap"
+    files_all = files + [spath]
     ctx.extra["deviation_cases"] = stats["dev_cases"]
     ctx.extra["unexplained_cases"] = stats["unexplained"]
 
@@ -239,8 +276,10 @@ def run(ctx):
         ctx.run_driver(binary, ["run", res] + files[:1], timeout=3600, env={"PATCH_SELFTEST": "corrupt", "PATCH_MAXREPORTS": "0"})
         st = None
         for line in open(res):
-            if '"summary"' in line[:20]:
+            if '"summary":1' in line:
                 st = json.loads(line)
+        if st is None:
+            raise vlib.Inconclusive("binding self-test: the driver wrote no summary")
         ok_evals = st["by_class"].get("ok", 0)
         ctx.extra["selftest_corrupt_expectations"] = dict(ok_evaluations=ok_evals, rejected=st["unmatched"])
         if ok_evals == 0 or st["unmatched"] < ok_evals:
@@ -248,7 +287,7 @@ def run(ctx):
                 ok_evals, st["unmatched"]))
         os.remove(res)
 
-    for p in files:
+    for p in files_all:
         try:
             os.remove(p)
         except OSError:
